@@ -33,6 +33,8 @@ pub(crate) struct RawOp<M: ?Sized> {
     extra: Extra,
     // The cancelled flag indicates the op has been cancelled.
     cancelled: bool,
+    #[cfg(compio_verif)]
+    probe: crate::verif::OpProbe,
     result: PushEntry<Option<Waker>, io::Result<usize>>,
     pub(crate) carrier: M,
 }
@@ -212,6 +214,8 @@ impl ErasedKey {
         let raw_op = RawOp {
             extra,
             cancelled: false,
+            #[cfg(compio_verif)]
+            probe: crate::verif::OpProbe::new(),
             result: PushEntry::Pending(None),
             carrier: Carrier::new(op, driver_ty),
         };
@@ -221,6 +225,13 @@ impl ErasedKey {
         // - Carrier is being pinned by ThinCell, it will have a stable address until
         //   move out
         unsafe { inner.borrow_unchecked().carrier.init() };
+        #[cfg(compio_verif)]
+        crate::verif::emit(
+            crate::verif::Kind::OpNew,
+            unsafe { inner.borrow_unchecked().probe.id() },
+            inner.as_ptr() as usize as u64,
+            crate::verif::intern(std::any::type_name::<T>()),
+        );
         Self {
             inner: unsafe { inner.unsize(|p| p as *const Inner<RawOp<dyn Carry>>) },
         }
@@ -289,6 +300,13 @@ impl ErasedKey {
     /// Set the `cancelled` flag, returning whether it was already cancelled.
     pub(crate) fn set_cancelled(&self) -> bool {
         let mut op = self.borrow();
+        #[cfg(compio_verif)]
+        crate::verif::emit(
+            crate::verif::Kind::CancelFlag,
+            self.as_raw() as u64,
+            op.cancelled as u64,
+            0,
+        );
         mem::replace(&mut op.cancelled, true)
     }
 
@@ -305,6 +323,8 @@ impl ErasedKey {
     /// Complete the op and wake up the future if a waker is set.
     pub(crate) fn set_result(&self, res: io::Result<usize>) {
         let mut this = self.borrow();
+        #[cfg(compio_verif)]
+        crate::verif::emit_res(crate::verif::Kind::Final, self.as_raw(), &res);
         {
             let RawOp { extra, carrier, .. } = &mut *this;
             unsafe { crate::sys::Carry::set_result(carrier, &res, extra) };
@@ -349,6 +369,8 @@ impl ErasedKey {
         // SAFETY: Caller guarantees that `T` is the actual concrete type.
         let this = unsafe { self.inner.downcast_unchecked::<RawOp<Carrier<T>>>() };
         let op = this.try_unwrap().map_err(|_| ()).expect("Key not unique");
+        #[cfg(compio_verif)]
+        crate::verif::emit(crate::verif::Kind::Taken, op.probe.id(), 0, 0);
         let res = op.result.take_ready().expect("Result not ready");
         BufResult(res, op.carrier.into_inner())
     }
